@@ -79,20 +79,30 @@ func (check fieldConstraints) checkValue(v val.Value, t *meta.Type) error {
 		}
 	case val.FmtIdentityRef:
 		if id, isId := v.(val.IdentRef); isId {
-			if meta.FindIdentity(t.Base(), id.Label) == nil {
-				return fmt.Errorf("'%s' is not derived from the base identity", id.Label)
+			if err := check.checkIdentity(id, t); err != nil {
+				return err
 			}
 		}
 	case val.FmtIdentityRefList:
 		if l, isIdList := v.(val.IdentRefList); isIdList {
 			for _, id := range l {
-				if meta.FindIdentity(t.Base(), id.Label) == nil {
-					return fmt.Errorf("'%s' is not derived from the base identity", id.Label)
+				if err := check.checkIdentity(id, t); err != nil {
+					return err
 				}
 			}
 		}
 	}
 	return check.checkMember(v, t)
+}
+
+// checkIdentity: RFC7950 Sec 9.10.2 - derived from every base of the type
+func (fieldConstraints) checkIdentity(id val.IdentRef, t *meta.Type) error {
+	for _, base := range t.Base() {
+		if meta.FindIdentity(base.DerivedDirect(), id.Label) == nil {
+			return fmt.Errorf("'%s' is not derived from the base identity %s", id.Label, base.Ident())
+		}
+	}
+	return nil
 }
 
 // checkMember checks string and number restrictions of a type that is not a union
